@@ -121,11 +121,22 @@ def check_triple(mg, method, nv, order, ntv=3):
         idx = list(range(0, nv, interval))
     idx = list(reversed(idx))        # flipped: abscissae ascending in ln V
     xs, ys = list(I.x), list(I.y)
-    if len(xs) != len(idx) or len(ys) != len(idx):
-        return "interpolant built on %d/%d nodes, expected %d" % (len(xs), len(ys), len(idx))
-    for j, i in enumerate(idx):
-        if not symnp.term(xs[j]).eq(symnp.LOG(V[i].z)) or not symnp.term(ys[j]).eq(symnp.LOG(W[i].z)):
-            return "node %d of the interpolant is (%s, %s), expected (ln V[%d], ln omega[%d]) of the same volume" % (j, xs[j], ys[j], i, i)
+    # which volumes are used as nodes is the method's business (the property does not fix it); each node must pair ln V and
+    # ln omega of ONE AND THE SAME sampled volume, no volume twice, abscissae in ascending ln V (volumes are listed decreasing)
+    if len(xs) != len(ys) or len(xs) < 2:
+        return "interpolant built on %d abscissae / %d ordinates" % (len(xs), len(ys))
+    used = []
+    for j in range(len(xs)):
+        i = next((i for i in range(nv) if symnp.term(xs[j]).eq(symnp.LOG(V[i].z))), None)
+        if i is None:
+            return "abscissa %d of the interpolant (%s) is not ln V of a sampled volume" % (j, xs[j])
+        if not symnp.term(ys[j]).eq(symnp.LOG(W[i].z)):
+            return "node %d pairs ln V[%d] with %s instead of ln omega[%d] of the same volume" % (j, i, ys[j], i)
+        used.append(i)
+    if len(set(used)) != len(used) or used != sorted(used, reverse=True):
+        return "nodes use the volumes %s: repeated or not in ascending ln V order" % used
+    if method == "spline" and used != idx:
+        return "the spline is built on the volumes %s, not on all sampled volumes" % used
     for which, nu, sign in ((0, 0, None), (1, 1, -1), (2, 2, -1)):
         arr = res[which]
         if len(arr) != ntv:
